@@ -51,6 +51,9 @@ def correspondence(ctx):
             if "parameter" not in o:
                 ctx.violation("streaming compression failed: %s" % o, rep)
             continue
+        if o.startswith("TIMEOUT") or not o.split() or any(ch not in "0123456789abcdef-" for ch in o.split()[0]):
+            ctx.violation("a streaming compression history did not finish (no return within the per-operation alarm): %s" % ln[:120], rep)
+            continue
         f = o.split()[0]
         fb = bytes.fromhex(f) if f != "-" else b""
         frs.append((fb, x))
